@@ -460,6 +460,35 @@ var mutators = []mutator{
 		w.insertCert(t, w.tight[w.r.Intn(3)].Cert)
 		t.Validity.NotAfter = sec(5000).Add([]time.Duration{time.Nanosecond, time.Second, time.Hour}[w.r.Intn(3)])
 	}},
+	// voting certificates WITHOUT an ISD-AS attribute must cover the TRC validity like any other
+	{"noia-tight-cert", func(w *world, t *cppki.TRC) {
+		if c := w.noIATight[w.r.Intn(2)].Cert; !hasCert(t, c) {
+			w.insertCert(t, c)
+		}
+	}},
+	{"noia-tight-early", func(w *world, t *cppki.TRC) {
+		if c := w.noIATight[w.r.Intn(2)].Cert; !hasCert(t, c) {
+			w.insertCert(t, c)
+		}
+		t.Validity.NotBefore = sec(0).Add(-[]time.Duration{time.Nanosecond, time.Second, time.Hour}[w.r.Intn(3)])
+	}},
+	{"noia-tight-late", func(w *world, t *cppki.TRC) {
+		if c := w.noIATight[w.r.Intn(2)].Cert; !hasCert(t, c) {
+			w.insertCert(t, c)
+		}
+		t.Validity.NotAfter = sec(5000).Add([]time.Duration{time.Nanosecond, time.Second, time.Hour}[w.r.Intn(3)])
+	}},
+	{"noia-short-cert", func(w *world, t *cppki.TRC) {
+		if c := w.noIAShort[w.r.Intn(2)].Cert; !hasCert(t, c) {
+			w.insertCert(t, c)
+		}
+	}},
+	{"noia-short-cert-covering", func(w *world, t *cppki.TRC) { // TRC validity shrunk into the short certificate's
+		if c := w.noIAShort[w.r.Intn(2)].Cert; !hasCert(t, c) {
+			w.insertCert(t, c)
+		}
+		t.Validity = cppki.Validity{NotBefore: sec(100 + w.r.Intn(3)), NotAfter: sec(4000 - w.r.Intn(3))}
+	}},
 	{"validity-outside-all", func(w *world, t *cppki.TRC) {
 		if w.r.Bool() {
 			t.Validity.NotBefore = sec(-10001)
